@@ -67,10 +67,11 @@ type response struct {
 	Err      string     `json:"err,omitempty"`
 	NotFound bool       `json:"nf,omitempty"`
 	Panic    string     `json:"panic,omitempty"`
-	Hang     bool       `json:"hang,omitempty"`  // the operation burnt the CPU budget without returning
-	Stall    bool       `json:"stall,omitempty"` // no answer within the wall-clock fallback, without burning CPU
-	Dead     bool       `json:"dead,omitempty"`  // the SUT process died without answering
-	CPUms    int64      `json:"cpu_ms,omitempty"`
+	Hang     bool       `json:"hang,omitempty"`   // the operation burnt the CPU budget without returning
+	Stall    bool       `json:"stall,omitempty"`  // no answer within the wall-clock fallback, without burning CPU
+	Dead     bool       `json:"dead,omitempty"`   // the SUT process died without answering
+	CPUms    int64      `json:"cpu_ms,omitempty"` // user-mode CPU of the operation when it was declared hung
+	SysMs    int64      `json:"sys_ms,omitempty"` // kernel-mode CPU
 	Key      []byte     `json:"key,omitempty"`
 	Data     []byte     `json:"data,omitempty"`
 	Hdr      []byte     `json:"hdr,omitempty"`
